@@ -83,6 +83,10 @@ type c19Job struct {
 	Data    bool    // return the bytes of every file (baseline); otherwise only of files whose hash is not in Expect
 	Names   bool    // also return the file names of Publisher.Files for these options and for all page groups
 	Expect  map[string]string
+	// DirHistory: publish Gedcom with the real DirectoryFileWriter into a fresh directory, then
+	// Gedcom2 into a directory in which some pages cannot be created (the operating system refuses),
+	// then Gedcom again into a third directory; the two directories of Gedcom are returned as two runs.
+	DirHistory bool
 }
 
 type c19File struct {
@@ -99,15 +103,16 @@ type c19Run struct {
 }
 
 type c19Result struct {
-	Runs      []c19Run
-	Names     []string // Publisher.Files names for the options of the job (nothing rendered)
-	NamesAll  []string // … with every page group enabled
-	Panic     string
-	Crashed   bool   // child died (goroutine panic, fatal error)
-	TimedOut  bool   // child did not finish within the timeout
-	Stderr    string // tail
-	RaceCount int    // race reports in the child's log (race build only)
-	Races     []string
+	Runs       []c19Run
+	Names      []string // Publisher.Files names for the options of the job (nothing rendered)
+	NamesAll   []string // … with every page group enabled
+	HistoryErr string   // DirHistory: what Publish of the failing document returned ("" = nil)
+	Panic      string
+	Crashed    bool   // child died (goroutine panic, fatal error)
+	TimedOut   bool   // child did not finish within the timeout
+	Stderr     string // tail
+	RaceCount  int    // race reports in the child's log (race build only)
+	Races      []string
 }
 
 // c19MemWriter renders every file into memory, in the calling worker goroutine exactly like
@@ -186,6 +191,33 @@ func c19PublishOnce(job *c19Job, src []byte, failAt int, failAll bool) (run c19R
 	return run, nil
 }
 
+// c19PublishDir publishes into dir with the real core.DirectoryFileWriter and reads the files back.
+func c19PublishDir(job *c19Job, src []byte, dir string) (run c19Run, err error) {
+	doc, derr := gedcom.NewDocumentFromString(string(src))
+	if derr != nil {
+		return run, derr
+	}
+	p := html.NewPublisher(doc, job.Opts.real())
+	if perr := p.Publish(core.NewDirectoryFileWriter(dir), job.Jobs); perr != nil {
+		run.Err = perr.Error()
+	}
+	entries, _ := os.ReadDir(dir)
+	for _, e := range entries {
+		data, rerr := os.ReadFile(filepath.Join(dir, e.Name()))
+		if rerr != nil {
+			continue
+		}
+		sum := sha1.Sum(data)
+		f := c19File{Name: e.Name(), Sha: hex.EncodeToString(sum[:]), Data: data}
+		if want, ok := job.Expect[f.Name]; ok && want == f.Sha {
+			f.Data = nil
+		}
+		run.Files = append(run.Files, f)
+	}
+	run.Calls = len(run.Files)
+	return run, nil
+}
+
 func c19FileNames(src []byte, o c19Opts) ([]string, error) {
 	doc, err := gedcom.NewDocumentFromString(string(src))
 	if err != nil {
@@ -213,6 +245,43 @@ func init() {
 					res.Panic = fmt.Sprint(r)
 				}
 			}()
+			if job.DirHistory {
+				tmp, err := os.MkdirTemp("", "c19dir-")
+				if err != nil {
+					res.Panic = "mkdir: " + err.Error()
+					return
+				}
+				defer os.RemoveAll(tmp)
+				for _, d := range []string{"before", "failing", "after"} {
+					os.Mkdir(filepath.Join(tmp, d), 0o755)
+				}
+				before, err := c19PublishDir(&job, job.Gedcom, filepath.Join(tmp, "before"))
+				if err != nil {
+					res.Panic = "decode: " + err.Error()
+					return
+				}
+				// the failing publishes: a page whose name the file system refuses (too long), and an
+				// output directory below a regular file
+				os.WriteFile(filepath.Join(tmp, "plainfile"), []byte("x"), 0o644)
+				failJob := job // every page group, so that the pages that cannot be created are published
+				failJob.Opts = job.Opts.allGroups()
+				failing, err := c19PublishDir(&failJob, job.Gedcom2, filepath.Join(tmp, "failing"))
+				if err != nil {
+					res.Panic = "decode: " + err.Error()
+					return
+				}
+				res.HistoryErr = failing.Err
+				if second, err := c19PublishDir(&failJob, job.Gedcom2, filepath.Join(tmp, "plainfile", "out")); err == nil && second.Err == "" {
+					res.HistoryErr = ""
+				}
+				after, err := c19PublishDir(&job, job.Gedcom, filepath.Join(tmp, "after"))
+				if err != nil {
+					res.Panic = "decode: " + err.Error()
+					return
+				}
+				res.Runs = []c19Run{before, after}
+				return
+			}
 			if len(job.Gedcom2) > 0 { // history: another document is published first
 				if _, err := c19PublishOnce(&job, job.Gedcom2, 0, false); err != nil {
 					res.Panic = "decode: " + err.Error()
@@ -708,6 +777,11 @@ func c19GenerateDupPointers(r *Rand, nowYear int) *c19Doc {
 	line(0, "TRLR")
 	return &c19Doc{Text: sb.String(), Mode: "duplicate-pointers"}
 }
+
+// c19UncreatableDoc has pages the operating system refuses to create: source pointers of 300 bytes
+// (file name too long).  The individual and list pages before them are written normally.
+var c19UncreatableDoc = "0 HEAD\n0 @I1@ INDI\n1 NAME Zed /Quux/\n1 BIRT\n2 PLAC Nowhere\n2 SOUR @" + strings.Repeat("S", 300) + "@\n1 DEAT Y\n" +
+	"0 @" + strings.Repeat("S", 300) + "@ SOUR\n1 TITL Long one\n0 @" + strings.Repeat("T", 300) + "@ SOUR\n1 TITL Long two\n0 @" + strings.Repeat("U", 260) + "@ SOUR\n1 TITL Long three\n0 TRLR\n"
 
 func c19RandOpts(r *Rand) c19Opts {
 	o := c19Opts{true, true, true, true, true, true, "show"}
@@ -1434,6 +1508,14 @@ func init() {
 							job: &c19Job{Gedcom: g, Opts: s.opts, Jobs: allJobs[k%4], Repeat: 5, Expect: expect}})
 					}
 				}
+				if i%8 == 1 || s.doc.Mode == "witness" {
+					// the real DirectoryFileWriter: publish, then a publish whose pages cannot all be
+					// created, then publish again — one process, one job, one P (a pooled or cached
+					// buffer dirtied by the failure would show in the second copy)
+					variants = append(variants, &variant{site: s, what: "dir-history after-failed-create",
+						job: &c19Job{Gedcom: g, Gedcom2: []byte(c19UncreatableDoc), Opts: s.opts, Jobs: 1, Expect: expect, DirHistory: true},
+						env: []string{"GOMAXPROCS=1", "GOGC=off"}})
+				}
 				variants = append(variants, &variant{site: s, what: "after-other-document",
 					job: &c19Job{Gedcom: g, Gedcom2: []byte(otherDoc.Text), Opts: s.opts, Jobs: 1 + i%3, Expect: expect}})
 				// writer failing at the k-th file
@@ -1510,6 +1592,37 @@ func init() {
 				c.Eval()
 				base := s.base.Runs[0]
 				switch {
+				case strings.HasPrefix(v.what, "dir-history"):
+					c.Count("determinism:dir-history")
+					if v.res.TimedOut || v.res.Crashed || v.res.Panic != "" || len(v.res.Runs) != 2 {
+						c.Oracle("", "publishing with the DirectoryFileWriter crashes or hangs", in,
+							fmt.Sprintf("timeout=%v %s%s", v.res.TimedOut, v.res.Panic, c19FirstLine(v.res.Stderr)), "files in the directory")
+						continue
+					}
+					in["document published in between (pages cannot be created)"] = c19UncreatableDoc
+					if v.res.HistoryErr == "" {
+						c.Oracle("", "a page could not be created but Publish returned nil", in, "nil", "a non-nil error")
+					}
+					before, after := v.res.Runs[0], v.res.Runs[1]
+					if before.Err != "" || after.Err != "" {
+						c.Count("dir-history:own-publish-failed") // e.g. an over-long name of the site itself
+						continue
+					}
+					dupNames := false // a name written twice (known findings) is one file in a directory
+					for _, shas := range c19FileMap(base) {
+						if len(shas) > 1 {
+							dupNames = true
+						}
+					}
+					if dupNames {
+						c.Count("dir-history:site-with-duplicate-names")
+					} else if ok, diff := c19SameFiles(base, before); !ok {
+						c.Oracle("", "the files the DirectoryFileWriter writes differ from the rendered pages", in, diff, "identical names and bytes")
+					}
+					if ok, diff := c19SameFiles(before, after); !ok {
+						c.Oracle("", "the published files differ after an earlier publish in the same process failed to create a page", in, diff, "identical names and bytes")
+					}
+					c.Nontrivial("dir-history/" + s.opts.Living)
 				case strings.HasPrefix(v.what, "writer-fails"):
 					c.Count("fault:jobs=" + strconv.Itoa(v.job.Jobs))
 					if v.res.TimedOut {
